@@ -424,6 +424,27 @@ pub fn run(tier: Tier) -> Report {
         .collect();
     parts.push(json!({"part": "binary-conformance", "sessions": conf.len(), "failing": fc.len()}));
     fails.extend(fc);
+    // a burst of changes without any request in between: 100 / 500, in process and binary
+    for binary in [false, true] {
+        let n = tier.pick(100, 500);
+        execs.fetch_add(1, Ordering::Relaxed);
+        let bad = eval_change_burst(n, binary);
+        parts.push(json!({"part": "change-burst", "changes": n, "binary": binary, "failing": bad.is_some() as u32}));
+        if let Some((k, d)) = bad {
+            fails.push(mk(format!("ordering:{}change-burst:{}", if binary { "binary:" } else { "" }, k), d, json!({"change_burst": {"n": n, "binary": binary}, "mode": if binary { "process" } else { "in-process" }})));
+        }
+    }
+    // a request behind seconds of queued analysis work (250 KB document, 120 / 300 changes)
+    {
+        let n = tier.pick(120, 300);
+        let t0 = std::time::Instant::now();
+        execs.fetch_add(1, Ordering::Relaxed);
+        let bad = eval_big_document_burst(n);
+        parts.push(json!({"part": "big-document-burst", "changes": n, "seconds": t0.elapsed().as_secs_f64(), "failing": bad.is_some() as u32}));
+        if let Some((k, d)) = bad {
+            fails.push(mk(format!("ordering:binary:big-document-burst:{}", k), d, json!({"big_document_burst": n, "mode": "process"})));
+        }
+    }
     // many documents at once: 40 (quick) / 200 (thorough), in process and against the binary
     for binary in [false, true] {
         let n = tier.pick(40, 200);
@@ -438,7 +459,8 @@ pub fn run(tier: Tier) -> Report {
     // responder blocks, the channels fill up, the reader loop blocks), then 2 KiB every 5 ms;
     // every response must arrive, in order, also those queued when shutdown/exit are processed
     {
-        let n_procs = 150;
+        // (200 procedures: every fold answer is larger than 8 KiB)
+        let n_procs = 200;
         let n_reqs = tier.pick(70, 300);
         for graceful in [true, false] {
         let (bad, out_bytes) = eval_slow_reader(n_procs, n_reqs, graceful);
@@ -565,11 +587,91 @@ pub fn eval_many_documents(n: usize, binary: bool) -> Option<(String, String)> {
     None
 }
 
+/// A request pipelined behind the didOpen of a 250 KB document and `n` changes of it (seconds
+/// of analysis in front of the request): it is answered from the final text, however long it
+/// has to wait. Against the binary.
+pub fn eval_big_document_burst(n: usize) -> Option<(String, String)> {
+    let pr = crate::gen::ast::print_program(&crate::progs::scale_program(40, 40, 9000));
+    let text = crate::gen::layout::render_plain(&pr.toks, crate::gen::layout::Layout::Pretty).text;
+    let mut s = Session::new(true);
+    s.open(URIS[0], &text);
+    for _ in 0..n {
+        s.change(URIS[0], json!([{"range": {"start": {"line": 0, "character": 0}, "end": {"line": 0, "character": 0}}, "text": " "}]));
+    }
+    // `type T0 = ...` is the first line: after n blanks the name stands at column 5 + n
+    let id = s.request(METHODS[1], json!({"textDocument": {"uri": URIS[0]}, "position": {"line": 0, "character": 5 + n}}));
+    s.msgs.push(request(100_000, "shutdown", Value::Null));
+    s.msgs.push(notification("exit", Value::Null));
+    let bytes: Vec<u8> = s.msgs.iter().flat_map(frame).collect();
+    let o = procdrv::run_chunks(&[bytes], false, Duration::from_secs(120));
+    if o.timed_out {
+        return Some(("hang".into(), "no exit within 120 s".into()));
+    }
+    if let Some(e) = o.frame_error {
+        return Some(("malformed-output".into(), e));
+    }
+    let got = o.frames.iter().find(|f| f.get("method").is_none() && f["id"].as_i64() == Some(id)).map(|f| f["result"].clone()).unwrap_or(json!("missing"));
+    if !got["contents"]["value"].as_str().map(|v| v.contains("T0")).unwrap_or(false) {
+        return Some(("stale-or-foreign-answer".into(), format!("hover on T0 behind {} changes of a {} byte document: {}", n, text.len(), truncate(&got.to_string(), 200))));
+    }
+    let published = o.frames.iter().filter(|f| f["method"] == json!("textDocument/publishDiagnostics")).count();
+    if published != n + 1 {
+        return Some(("diagnostics-lost".into(), format!("{} publishDiagnostics notifications, expected {}", published, n + 1)));
+    }
+    None
+}
+
+/// A burst of `n` consecutive didChange notifications (more than the channel capacities, no
+/// request in between that would let the queues drain), then one request: the answer must
+/// describe the document after ALL changes (every change inserts a procedure at the start).
+pub fn eval_change_burst(n: usize, binary: bool) -> Option<(String, String)> {
+    let mut s = Session::new(true);
+    s.open(URIS[0], "proc main() {\n}\n");
+    for k in 0..n {
+        s.change(URIS[0], json!([{"range": {"start": {"line": 0, "character": 0}, "end": {"line": 0, "character": 0}}, "text": format!("proc b{}() {{\n}}\n", k)}]));
+    }
+    let id = s.request(METHODS[0], req_params(METHODS[0], URIS[0]));
+    s.msgs.push(request(100_000, "shutdown", Value::Null));
+    s.msgs.push(notification("exit", Value::Null));
+    let frames: Vec<Value> = if binary {
+        let bytes: Vec<u8> = s.msgs.iter().flat_map(frame).collect();
+        let o = procdrv::run_chunks(&[bytes], false, Duration::from_secs(30));
+        if o.timed_out {
+            return Some(("hang".into(), "no exit within 30 s".into()));
+        }
+        if let Some(e) = o.frame_error {
+            return Some(("malformed-output".into(), e));
+        }
+        o.frames
+    } else {
+        let o = s.run();
+        if let Some(e) = o.error.clone().or(o.frame_error.clone()) {
+            return Some(("error".into(), e));
+        }
+        o.frames
+    };
+    let got = frames.iter().find(|f| f.get("method").is_none() && f["id"].as_i64() == Some(id)).map(|f| f["result"].clone()).unwrap_or(json!("missing"));
+    let folds = got.as_array().map(|a| a.len()).unwrap_or(usize::MAX);
+    if folds != n + 1 {
+        return Some(("changes-lost".into(), format!("{} folding ranges after {} changes that each insert a procedure (expected {}): {}", folds, n, n + 1, truncate(&got.to_string(), 200))));
+    }
+    let published = frames.iter().filter(|f| f["method"] == json!("textDocument/publishDiagnostics")).count();
+    if published != n + 1 {
+        return Some(("diagnostics-lost".into(), format!("{} publishDiagnostics notifications, expected {}", published, n + 1)));
+    }
+    None
+}
+
 /// a slow client (see run()): Some((kind, detail)) on failure, and the number of output bytes
 pub fn eval_slow_reader(n_procs: usize, n_reqs: usize, graceful: bool) -> (Option<(String, String)>, usize) {
     let text: String = (0..n_procs).map(|i| format!("proc p{}() {{\n}}\n", i)).collect();
     let mut s = Session::new(true);
     s.open(URIS[0], &text);
+    // 150 changes first (a blank in front, the folds stay the same): with the diagnostics
+    // capability each one queues a notification behind the blocked responder
+    for _ in 0..150 {
+        s.change(URIS[0], json!([{"range": {"start": {"line": 0, "character": 0}, "end": {"line": 0, "character": 0}}, "text": " "}]));
+    }
     let ids: Vec<i64> = (0..n_reqs).map(|_| s.request(METHODS[0], req_params(METHODS[0], URIS[0]))).collect();
     if graceful {
         s.msgs.push(request(100_000, "shutdown", Value::Null));
@@ -580,12 +682,15 @@ pub fn eval_slow_reader(n_procs: usize, n_reqs: usize, graceful: bool) -> (Optio
     let answered: Vec<i64> = o.frames.iter().filter(|f| f.get("method").is_none()).filter_map(|f| f["id"].as_i64()).collect();
     let want: Vec<i64> = std::iter::once(0).chain(ids.iter().cloned()).chain(if graceful { Some(100_000) } else { None }).collect();
     let full = o.frames.iter().filter(|f| f.get("method").is_none() && f["result"].as_array().map(|a| a.len() == n_procs).unwrap_or(false)).count();
+    let published = o.frames.iter().filter(|f| f["method"] == json!("textDocument/publishDiagnostics")).count();
     let bad = if o.timed_out {
         Some(("hang".to_string(), "no exit within 60 s after the client started to read".to_string()))
     } else if let Some(e) = &o.frame_error {
         Some(("malformed-output".to_string(), e.clone()))
     } else if answered != want {
         Some(("responses".to_string(), format!("{} of {} responses arrived (ids in order: {})", answered.len(), want.len(), answered.iter().zip(&want).all(|(a, b)| a == b))))
+    } else if published != 151 {
+        Some(("diagnostics".to_string(), format!("{} publishDiagnostics notifications, expected 151 (one for didOpen, one per didChange)", published)))
     } else if full != n_reqs {
         Some(("answers".to_string(), format!("{} of {} fold answers list all {} procedures", full, n_reqs, n_procs)))
     } else if o.exit_code != Some(if graceful { 0 } else { 1 }) {
@@ -597,6 +702,14 @@ pub fn eval_slow_reader(n_procs: usize, n_reqs: usize, graceful: bool) -> (Optio
 }
 
 pub fn replay(case: &Value) -> Vec<Failure> {
+    if let Some(n) = case["big_document_burst"].as_u64() {
+        return eval_big_document_burst(n as usize).map(|(k, d)| vec![Failure { key: format!("ordering:binary:big-document-burst:{}", k), case: case.clone(), detail: d }]).unwrap_or_default();
+    }
+    if let Some(cb) = case.get("change_burst") {
+        return eval_change_burst(cb["n"].as_u64().unwrap_or(100) as usize, cb["binary"].as_bool().unwrap_or(true))
+            .map(|(k, d)| vec![Failure { key: format!("ordering:change-burst:{}", k), case: case.clone(), detail: d }])
+            .unwrap_or_default();
+    }
     if let Some(md) = case.get("many_documents") {
         return eval_many_documents(md["n"].as_u64().unwrap_or(40) as usize, md["binary"].as_bool().unwrap_or(true))
             .map(|(k, d)| vec![Failure { key: format!("ordering:many-documents:{}", k), case: case.clone(), detail: d }])
